@@ -42,13 +42,13 @@ static unsigned spec_b32_get5(const unsigned char *d, size_t len, size_t off) {
 
 /* --- sizes of the encoding of n > 0 bytes with group length g --- */
 static size_t spec_b32_nsym(size_t n) { return (n * 8 + 4) / 5; }                 /* data symbols */
-static size_t spec_b32_padded(size_t n) { return (spec_b32_nsym(n) + 7) / 8 * 8; } /* symbols + '=' */
+static size_t spec_b32_padded(size_t n) { return ((n * 8 + 4) / 5 + 7) / 8 * 8; } /* symbols + '=' (no nested calls: dfcc) */
 static size_t spec_b32_dashes_before(size_t k, size_t g) { return g > 0 ? k / g : 0; } /* dashes left of sequence position k */
-static size_t spec_b32_pos(size_t k, size_t g) { return k + spec_b32_dashes_before(k, g); } /* output index of sequence position k */
-static size_t spec_b32_strlen(size_t n, size_t g) { size_t p = spec_b32_padded(n); return p + (g > 0 ? (p - 1) / g : 0); }
+static size_t spec_b32_pos(size_t k, size_t g) { return k + (g > 0 ? k / g : 0); } /* output index of sequence position k */
+static size_t spec_b32_strlen(size_t n, size_t g) { size_t p = ((n * 8 + 4) / 5 + 7) / 8 * 8; return p + (g > 0 ? (p - 1) / g : 0); }
 /* character at position k of the dash-less padded sequence */
 static char spec_b32_seq(const unsigned char *d, size_t n, size_t k) {
-	return k < spec_b32_nsym(n) ? spec_b32_symbol(spec_b32_get5(d, n, 5 * k)) : '=';
+	return k < (n * 8 + 4) / 5 ? spec_b32_symbol(spec_b32_get5(d, n, 5 * k)) : '=';
 }
 
 /* --- reference decoder as a one-character-at-a-time machine (ghost monitor / replay) ---
